@@ -65,12 +65,38 @@ def run(chk, replay=None):
             continue
         seen.add(sig)
         chk.violation(sig, "case %s (%s): %s -- definitions in %s/defs/case_%s.rs" % (case, c.get("desc"), msg, out, case), dict(case=case, desc=c.get("desc")))
+    # the library's own `extern "C"` definitions (exported functions, function-pointer fields) under each feature set: same lint, on the library itself
+    lib_sets = [[], ["layout_checks", "task", "futures"], ["rust_void"]]
+    lib_diag = 0
+    for fs in lib_sets:
+        cmd = ["cargo", "check", "--offline", "--message-format=json", "--target-dir", os.path.join(WORK, "target-c03lib")] + (["--features", ",".join(fs)] if fs else [])
+        rl = common.run(cmd, cwd=os.path.join(common.REPO, "cglue"), timeout=3000)
+        if rl["rc"] != 0:
+            chk.incon("the library does not build with features %s: %s" % (fs, rl["err"][-400:]))
+            continue
+        for line in rl["out"].splitlines():
+            if not line.startswith("{"):
+                continue
+            try:
+                m = json.loads(line)
+            except ValueError:
+                continue
+            d = m.get("message") if m.get("reason") == "compiler-message" else None
+            if d and ((d.get("code") or {}).get("code") or "") in ("improper_ctypes_definitions", "improper_ctypes"):
+                lib_diag += 1
+                ty = re.search(r"uses type `([^`]*)`", d["message"])
+                fn = d["spans"][0]["file_name"] if d.get("spans") else "?"
+                sig = "C03:library-extern-definition:%s" % (ty.group(1) if ty else "?")
+                if sig not in seen:
+                    seen.add(sig)
+                    chk.violation(sig, "cglue built with features %s: %s (%s)" % (fs or ["default"], d["message"], fn), dict(features=fs, file=fn))
+    chk.part("library-own-definitions", feature_sets=len(lib_sets), lint_diagnostics=lib_diag)
     n = len(meta["cases"]) - len(failed_exp)
     chk.coverage.update(programs=n, disagreements_checked=n, evaluations=n, distinct_nontrivial=n)
     chk.coverage["rule"] = ("one program per definition case: single-method traits = 5 receivers x every argument shape, 5 receivers x every return shape, int_result on/off/no_int_result for Result returns "
                             "(thorough: + argument x return cross product and two-argument traits), the multi-method / attribute / consuming / int_result traits of the glue corpus, the lifecycle world "
                             "(groups incl. aliased generic instantiations, all six kinds of wrapped associated types), generic/lifetime/unwrapped/wrap_with traits, and by-value + by-reference "
-                            "extern \"C\" probes for every opaque object/group type and every C-compatible wrapper type of the library")
+                            "extern \"C\" probes for every opaque object/group type and every C-compatible wrapper type of the library; the library crate itself is checked with the same lint under default, layout_checks+task+futures and rust_void features")
     chk.coverage["trusted_base"] = ["rustc's improper_ctypes_definitions / improper_ctypes lints (stable toolchain)", "expander links the same cglue-gen code the proc-macros run"]
     for c in meta["cases"][:: max(1, len(meta["cases"]) // 4)][:4]:
         p = os.path.join(out, "defs", "case_%d.rs" % c["case"])
